@@ -799,7 +799,13 @@ func (s *Session) itemLocs(se *SpecEnv, item string) ([]modLoc, error) {
 		name := strings.TrimSpace(strings.TrimPrefix(item, "heap "))
 		sort, ok := se.st.Sorts[name]
 		if !ok {
-			return nil, nil // never touched: nothing to forget
+			if strings.HasPrefix(name, "A:int") || strings.HasPrefix(name, "A:uint") {
+				// backing arrays of integer slices: the family may be touched only later (inside the loop / callee)
+				sort = arrSort(arrSort(SInt))
+				se.st.Sorts[name] = sort
+			} else {
+				return nil, nil // never touched: nothing to forget
+			}
 		}
 		return []modLoc{{heap: name, sort: sort, whole: true}}, nil
 	}
